@@ -1,7 +1,17 @@
 use std::panic;
+#[cfg(not(may_verif))]
 use std::sync::atomic::{AtomicBool, AtomicUsize, Ordering};
+#[cfg(may_verif)]
+use crate::verif::atomic::{AtomicBool, AtomicUsize};
+#[cfg(may_verif)]
+use std::sync::atomic::Ordering;
 use std::sync::Arc;
+#[cfg(not(may_verif))]
 use std::time::{Duration, Instant};
+#[cfg(may_verif)]
+use crate::verif::Instant;
+#[cfg(may_verif)]
+use std::time::Duration;
 
 use crate::cancel::Cancel;
 use crate::coroutine_impl::{
